@@ -30,6 +30,8 @@ type Obligation struct {
 
 // Engine translates one function (plus what it inlines) into one Script.
 type Engine struct {
+	callLog map[string]*callRecord // ghost call log of the function under contract
+	globalNames []string // declared addresses of package-level variables
 	w             *World
 	sc            *Script
 	comps         map[string]*component
@@ -708,6 +710,11 @@ func (e *Engine) globalRef(g *ssa.Global) string {
 		e.sc.declared[name] = SRef
 		e.sc.add(fmt.Sprintf("(declare-const %s %s)", name, SRef))
 		e.sc.add(fmt.Sprintf("(assert (and (bvult %s (_ bv2147483648 32)) (not (= %s (_ bv0 32)))))", name, name))
+		// distinct package-level variables live at distinct addresses
+		for _, o := range e.globalNames {
+			e.sc.add(fmt.Sprintf("(assert (not (= %s %s)))", name, o))
+		}
+		e.globalNames = append(e.globalNames, name)
 	}
 	return name
 }
